@@ -466,20 +466,32 @@ def _p_wf_crop(c):
 def _p_focus(c):
     pr = _impl()[3]
     m, n = c['shape']
-    f = pr.focus(np.ones((m, n), dtype=complex), 1)
+    Q = float(Fraction(c.get('Q', '1')))
+    q = Fraction(c.get('Q', '1'))
+    M, N = (-((-m * q.numerator) // q.denominator), -((-n * q.numerator) // q.denominator))
+    f = pr.focus(np.ones((m, n), dtype=complex), Q)
+    if f.shape != (M, N):
+        return f'focus with Q = {Q} returned shape {f.shape}, ceil(shape * Q) = {(M, N)}'
     pk = tuple(int(v) for v in np.unravel_index(np.argmax(abs(f)), f.shape))
-    if pk != (m // 2, n // 2):
-        return f'flat field focuses onto {pk}, the origin sample is {(m // 2, n // 2)}'
-    rest = abs(f).copy()
-    rest[pk] = 0
-    if rest.max() > 1e-9 * abs(f[pk]):        # scale-free: whatever the normalisation convention
-        return 'flat field does not focus onto a single sample'
+    if q == 1:
+        if pk != (M // 2, N // 2):
+            return f'flat field focuses onto {pk}, the origin sample is {(M // 2, N // 2)}'
+        rest = abs(f).copy()
+        rest[pk] = 0
+        if rest.max() > 1e-9 * abs(f[pk]):        # scale-free: whatever the normalisation convention
+            return 'flat field does not focus onto a single sample'
+    else:
+        # padded flat field: the zero-frequency bin holds the (unique, when the axis has more than one input sample) maximum
+        a_ = abs(f)
+        o = (M // 2, N // 2)
+        if a_[o] < a_.max() * (1 - 1e-12) or (m > 1 and n > 1 and np.count_nonzero(a_ >= a_[o] * (1 - 1e-9)) != 1):
+            return f'padded flat field focuses onto {pk}, the origin sample is {o}'
     d = np.zeros((m, n), dtype=complex)
     d[m // 2, n // 2] = 1
-    for nm, g in (('focus', pr.focus(d, 1)), ('unfocus', pr.unfocus(d, 1))):
+    for nm, g in (('focus', pr.focus(d, Q)), ('unfocus', pr.unfocus(d, Q))):
         g00 = g[0, 0]
-        if abs(g00) == 0 or abs(g - g00).max() > 1e-9 * abs(g00) or abs(g00.imag) > 1e-9 * abs(g00):
-            return f'{nm} of a point source on the origin sample is not a flat, real field'
+        if g.shape != (M, N) or abs(g00) == 0 or abs(g - g00).max() > 1e-9 * abs(g00) or abs(g00.imag) > 1e-9 * abs(g00):
+            return f'{nm} (Q = {Q}) of a point source on the origin sample is not a flat, real field'
     return None
 
 
@@ -1068,6 +1080,8 @@ def correspondence(ctx):
     # ---------------- FFT-route propagation keeps the origin on n//2 (frequency axis of focus/unfocus)
     for (m, n) in itertools.product(range(1, ctx.scale(12, 24)), repeat=2):
         _run_pred(ctx, 'focus_origin', {'shape': [m, n]}, nontrivial=m > 1 and n > 1, tag=f'par{m % 2}{n % 2}')
+        qq = ('2', '3/2', '5/4')[(m + n) % 3]        # padded route: focus / unfocus pad by Q first
+        _run_pred(ctx, 'focus_origin', {'shape': [m, n], 'Q': qq}, nontrivial=True, tag=f'Q{qq}/par{m % 2}{n % 2}')
 
     # ---------------- history: grids stay correct after callers edited earlier results in place (no shared arrays)
     for n in range(1, ctx.scale(40, 130)):
@@ -1422,7 +1436,7 @@ def search(ctx, hints):
     for (m, n) in itertools.product(range(1, 10), repeat=2):
         cases = [('richdata_xy', {'shape': [m, n], 'dx': 1.0, 'first': 'x'}), ('richdata_xy', {'shape': [m, n], 'dx': 1.0, 'first': 'y'}),
                  ('slices', {'shape': [m, n], 'dx': 1.0, 'twosided': True}), ('slices', {'shape': [m, n], 'dx': 1.0, 'twosided': False}),
-                 ('focus_origin', {'shape': [m, n]}),
+                 ('focus_origin', {'shape': [m, n]}), ('focus_origin', {'shape': [m, n], 'Q': '2'}), ('focus_origin', {'shape': [m, n], 'Q': '3/2'}),
                  ('centroid', {'shape': [m, n], 'pos': [m // 2, n // 2], 'dx': 1.0}),
                  ('centroid', {'shape': [m, n], 'pos': [m - 1, 0], 'dx': 0.5}),
                  ('centroid', {'shape': [m, n], 'pos': [m - 1, 0], 'unit': 'pixels'}),
@@ -1530,7 +1544,7 @@ MANIFEST_ENTRY = {
              'up to 40 (quick) / 128 (thorough); integer / list / tuple out_shape, Q = 1 with out_shape, int64 / float32 / '
              'complex128 data, transposed and strided inputs up to 10 / 20; grids, frequency axes up to 130 / 600; RichData.x / .y '
              '/ slices and centroids (spatial and pixels) up to 9x9 / 14x14; Wavefront return objects (identity, dx, wavelength, '
-             'space); the FFT itself on the focus / unfocus route up to 11x11 / 23x23; requests that shrink an axis through pad2d raise ValueError '
+             'space); the FFT itself on the focus / unfocus route up to 11x11 / 23x23, with Q = 1 and with the Q-pad (2, 3/2, 5/4); requests that shrink an axis through pad2d raise ValueError '
              '(all shapes up to 5 / 7); re-requested grids after in-place edits of earlier results; array centres written as '
              'ceil(n/2) in segmented.py / x/shack_hartmann.py and the shift pairs of interferogram.psd / '
              'synthesize_surface_from_psd still centre on n//2 for odd sizes (7 shapes / up to 9x9); the model\'s 1-D index maps '
